@@ -12,9 +12,17 @@ import (
 // (a simulated-network dialer) for the connections the gRPC pool opens.
 var ZZGrpcDialOptions func() []grpc.DialOption
 
+// ZZGrpcOnDial, when set by a harness, is told about every client connection
+// the gRPC pool opens (so that teardown can close what fabio still holds).
+var ZZGrpcOnDial func(target string, cc *grpc.ClientConn, err error)
+
 func zzGrpcDialContext(ctx context.Context, target string, opts ...grpc.DialOption) (*grpc.ClientConn, error) {
 	if f := ZZGrpcDialOptions; f != nil {
 		opts = append(append([]grpc.DialOption(nil), opts...), f()...)
 	}
-	return grpc.DialContext(ctx, target, opts...)
+	cc, err := grpc.DialContext(ctx, target, opts...)
+	if f := ZZGrpcOnDial; f != nil {
+		f(target, cc, err)
+	}
+	return cc, err
 }
